@@ -17,7 +17,8 @@ def load_specs(prop):
     return out
 
 
-def make_scratch(repo='/repo'):
+def make_scratch(repo=None):
+    repo = repo or os.environ.get('VERIF_SELFTEST_REPO') or os.environ.get('VERIF_REPO') or '/repo'
     d = tempfile.mkdtemp(prefix='verif_selftest_')
     subprocess.check_call(['rsync', '-a', '--exclude', 'target', '--exclude', '.git', repo + '/', d + '/'])
     return d
